@@ -46,7 +46,7 @@ def c16(tier):
     ck.extra["batch_shapes"] = len(batches)
     ck.extra["sized_batches"] = len(sized)
     ck.rule = ("every batch shape of NameMap.tla up to %d relationships over three symbols (repeats, same name as object and subject, subject id vs subject set) instantiated with "
-               "nine classes of adversarial strings; batches of 1..250 (thorough: 1000) relationships in five repetition patterns; Mapper round trip position by position, "
+               "eleven classes of adversarial strings (among them different spellings of one UUID, and a name together with the text of the id derived for it); batches of 1..250 (thorough: 1000) relationships in five repetition patterns; Mapper round trip position by position, "
                "determinism/injectivity of the id mapping, write + REST/gRPC read-back, lookup statements <= 100 ids; non-trivial: at least two relationships" % maxlen)
     ck.assumptions = ["sqlite only", "UUIDv5 collisions are assumed away"]
     ck.finish()
